@@ -65,6 +65,7 @@ type c19Rig struct {
 	dialogN  int
 	retained map[string]Backend
 	notified int64 // notifications that ran to their end (counted by the sentinel callback)
+	sameName bool  // both registrations are for one host name (on two ports)
 }
 
 type c19Host struct {
@@ -75,7 +76,15 @@ type c19Host struct {
 func newC19Rig(proto string, nNames int, c int) (*c19Rig, error) {
 	n := labReserve()
 	r := &c19Rig{proto: proto, port: 5080, ports: []int{5080, 5081}, hub: newLabHub(), eps: map[string]*labEP{}, bar: &c19Barrier{ch: make(chan struct{}, 1)}, retained: map[string]Backend{}}
-	if nNames == 1 {
+	if nNames == 3 {
+		// one host name configured twice, on two ports (a backend that serves two
+		// ports): one entry of the resolver, two registrations of the rotation
+		nNames = 2
+		r.sameName = true
+		n0 := fmt.Sprintf("pool-twice-%s-%d.verif.invalid", proto, c)
+		r.names = []string{n0, n0}
+		r.pools = [][]string{{n.ip(c, 1), n.ip(c, 2), n.ip(c, 3)}, {n.ip(c, 1), n.ip(c, 2), n.ip(c, 3)}}
+	} else if nNames == 1 {
 		r.names = []string{fmt.Sprintf("pool-%s-%d.verif.invalid", proto, c)}
 		r.pools = [][]string{{n.ip(c, 1), n.ip(c, 2), n.ip(c, 3), n.ip(c, 4), n.ip(c, 5)}}
 	} else {
@@ -109,6 +118,11 @@ func newC19Rig(proto string, nNames int, c int) (*c19Rig, error) {
 	for ni, name := range r.names {
 		r.res.Lock()
 		r.res.hostIPs[name] = NewAddressWithCallback()
+		if r.sameName {
+			// the name is known already, with one address, when the rotation registers
+			// for it (another service of the configuration asked for it before)
+			r.res.hostIPs[name].addrs = []string{r.pools[0][0]}
+		}
 		r.res.Unlock()
 		urls = append(urls, fmt.Sprintf("%s://%s:%d", proto, name, r.ports[ni]))
 	}
@@ -130,6 +144,23 @@ func newC19Rig(proto string, nNames int, c int) (*c19Rig, error) {
 	r.proxy = NewProxy("svc.test", 1200, "", false, NewPreConfigRoute(), NewPreConfigHostResolver(), NewSelfLearnRoute(), true, false)
 	r.proxy.AddItem(&ProxyItem{backend: rb, transports: []ServerTransport{r.bar}})
 	r.model = make([]c19Host, len(r.names))
+	if r.sameName {
+		for i := range r.model {
+			r.model[i].addrs = []string{r.pools[0][0]}
+		}
+		// what was known at registration has reached the rotation and the proxy
+		patientUntil(3*time.Second, 200*time.Microsecond, func() bool { return len(r.rb.GetAllBackend()) >= 2 })
+		time.Sleep(20 * time.Millisecond)
+		if err := r.quiesce(runtime.NumGoroutine(), atomic.LoadInt64(&r.notified), false); err != nil {
+			return nil, err
+		}
+		if f := r.checkMembership(); f != "" {
+			return nil, fmt.Errorf("VIOLATION-AT-START %s", f)
+		}
+		if f := r.checkBehaviour(); f != "" {
+			return nil, fmt.Errorf("VIOLATION-AT-START %s", f)
+		}
+	}
 	return r, nil
 }
 
@@ -190,6 +221,9 @@ func (r *c19Rig) apply(ni int, ips []string, fail bool) string {
 		}
 	} else {
 		h.addrs, h.failed = append([]string{}, ips...), 0
+	}
+	if r.sameName {
+		r.model[1-ni] = c19Host{addrs: append([]string{}, h.addrs...), failed: h.failed}
 	}
 	expectChange := strings.Join(sortedCopy(h.addrs), ",") != before
 	for k, b := range r.rb.GetAllBackend() {
@@ -492,7 +526,7 @@ func c19OutcomeString(ni int, ips []string, fail bool) string {
 
 func TestC19(t *testing.T) {
 	V.Rule("unit with real sockets: sequences of resolution outcomes (failure, or success with any duplicate-free address set incl. the empty one, order drawn) fed through the resolver's own addressResolved into the real rotation and a real Proxy, with quiescence between steps - exhaustively all sequences up to length 4 (thorough: 5) over the 8 subsets of 3 addresses + failure from the blank state, randomly up to length 60 over the subsets of 5 addresses with one host name or two host names (disjoint pools, different ports) feeding the same rotation, udp and tcp backends. Reference machine per name: success => addrs := S, failed := 0; failure => failed++ and iff failed > 3 and addrs non-empty: addrs := {}, failed := 0. After every step: rotation membership and the proxy's backend-address index equal the union of the model's sets; at sequence ends and drawn steps also behaviourally: 2k dispatches reach exactly the k harness sockets at those addresses twice each, vanished backends are closed, a dialog-creating response from address X is attributed iff X is a member. non-trivial = sequence with >= 3 failures in a row after a non-empty success, or a success that both adds and removes; distinct by sequence")
-	V.Require("answer of a backend that name resolution had removed meanwhile", "4th failure empties", "3 failures tolerated", "success adds and removes", "same-set success between failures", "two host names", "tcp backends", "udp backends", "behaviour checked")
+	V.Require("one host name configured twice, on two ports", "answer of a backend that name resolution had removed meanwhile", "4th failure empties", "3 failures tolerated", "success adds and removes", "same-set success between failures", "two host names", "tcp backends", "udp backends", "behaviour checked")
 	c := 200
 
 	t.Run("exhaustive", func(t *testing.T) {
@@ -616,13 +650,16 @@ func TestC19(t *testing.T) {
 	rigs := map[string]*c19Rig{}
 	rcheck(t, "random", V.N(200, 4000), func(rt *rapid.T) {
 		proto := rapid.SampledFrom([]string{"udp", "udp", "tcp"}).Draw(rt, "proto")
-		nNames := rapid.IntRange(1, 2).Draw(rt, "host names")
+		nNames := rapid.IntRange(1, 3).Draw(rt, "host names (3 = one name configured twice, on two ports)")
 		key := fmt.Sprintf("%s-%d", proto, nNames)
 		rig := rigs[key]
 		if rig == nil {
 			var err error
 			rig, err = newC19Rig(proto, nNames, c)
 			c++
+			if err != nil && strings.HasPrefix(err.Error(), "VIOLATION-AT-START ") {
+				failf(rt, "a host name that was known with one address when the rotation registered for it twice (two ports): %s", strings.TrimPrefix(err.Error(), "VIOLATION-AT-START "))
+			}
 			if err != nil {
 				V.HarnessError(rt, "rig: %v", err)
 			}
@@ -631,6 +668,10 @@ func TestC19(t *testing.T) {
 		// the global resolver variable must be this rig's (CreateRoundRobinBackend already ran)
 		V.Class(proto + " backends")
 		V.ClassIf(nNames == 2, "two host names")
+		V.ClassIf(nNames == 3, "one host name configured twice, on two ports")
+		if nNames == 3 {
+			nNames = 2
+		}
 		for ni := range rig.names {
 			if f := rig.apply(ni, []string{}, false); f != "" {
 				failf(rt, "reset step: %s", f)
